@@ -116,7 +116,7 @@ let run (id : string) (hdr : string list) (lines : string list list) (out : stri
         let e = match kind with
           | "ok" -> EOneShot (ni c, valid, ni k, Some (ni v))
           | "del" -> EOneShot (ni c, valid, ni k, None)
-          | "emptykey" | "longkey" | "badtype" | "bigvalue" | "scanabort" -> EOneShot (ni c, false, ni k, Some (ni v))
+          | "emptykey" | "longkey" | "badtype" | "bigvalue" | "scanabort" | "compactfail" -> EOneShot (ni c, false, ni k, Some (ni v))
           | _ -> failwith ("C17: bad oneshot kind: " ^ kind) in
         do_ev e; go r
       | ["probe"] :: r ->
